@@ -559,11 +559,11 @@ class Ctx:
         # emptiness predicates
         for a in other:
             if a[0] == "pred" and a[2] is False:
-                m = re.match(r"^(?:Vec::<T, A>|<impl \[T\]>|<impl str>)::is_empty\((.*)\)$", a[1])
+                m = re.match(r"^(?:(?:Vec::<T, A>|<impl \[T\]>|<impl str>)::)?is_empty\((.*)\)$", a[1])
                 if m:
                     add(self.len_sym(m.group(1)) - Poly.const(1))
             if a[0] == "pred" and a[2] is True:
-                m = re.match(r"^(?:Vec::<T, A>|<impl \[T\]>|<impl str>)::is_empty\((.*)\)$", a[1])
+                m = re.match(r"^(?:(?:Vec::<T, A>|<impl \[T\]>|<impl str>)::)?is_empty\((.*)\)$", a[1])
                 if m:
                     add(-self.len_sym(m.group(1)))
         return out
